@@ -136,6 +136,9 @@ def ownership_rule(ctx, g):
         inner = call_args(arg)[0]
         while inner.get("k") == "addr":
             inner = inner["e"]
+        if inner.get("k") == "local":
+            o_ = fnew.origin(inner)
+            inner = o_ if o_.get("k") == "local" else inner
         ok = inner.get("k") == "local" and inner.get("ty", "").startswith("std::sync::Arc<[u8]")
         src_local = inner if ok else None
     gargs = tm[0].get("gargs", [])
@@ -160,23 +163,51 @@ def ownership_rule(ctx, g):
         return
     fnodes = {f["name"]: f["e"] for f in lit["fields"]}
     d = fnodes.get("_data")
-    okd = d is not None and d.get("k") == "local" and d["id"] == src_local["id"]
+    if d is not None and d.get("k") == "local":
+        # `_data` may be the Arc itself or a local it was moved into (tuple destructuring of a helper's result)
+        chain = []
+        x = d
+        for _ in range(10):
+            chain.append(x.get("id"))
+            b_ = fnew.binds.get(x["id"])
+            if b_ is None or b_["mut"]:
+                break
+            v_ = b_["val"]
+            projs = []
+            while v_[0] == "proj":
+                projs.append(v_[1])
+                v_ = v_[2]
+            if v_[0] != "node" or v_[1] is None:
+                break
+            y = v_[1]
+            bad = False
+            for i_ in reversed(projs):
+                y = fnew.origin(y) if y.get("k") != "tup" else y
+                while y.get("k") == "block" and y.get("expr") is not None:
+                    y = y["expr"]
+                if y.get("k") == "tup" and i_ < len(y["es"]):
+                    y = y["es"][i_]
+                else:
+                    bad = True
+                    break
+            while not bad and y.get("k") == "block" and y.get("expr") is not None:
+                y = y["expr"]
+            if bad or y.get("k") != "local":
+                break
+            x = y
+        okd = src_local["id"] in chain
+    else:
+        okd = False
     ctx.check("C13.O", "%s:data_moved_in" % short, okd, "the Arc whose bytes were extended is moved into the returned struct",
               "field `_data` is not the Arc the slice was borrowed from: the bytes can be freed while the generator lives",
               line_of(lit))
     gen = fnodes.get(g["gen"])
     okg = False
-    if gen is not None and gen.get("k") == "local":
-        b = fnew.binds.get(gen["id"])
-        if b and b["val"][0] == "node":
-            c = b["val"][1]
-            if c.get("k") == "call" and cname(c) == g["core_new"]:
-                a0 = c["args"][0]
-                if a0.get("k") == "local":
-                    bb = fnew.binds.get(a0["id"])
-                    okg = bb is not None and bb["val"][0] == "node" and any(x is tm[0] for x in walk(bb["val"][1]))
-                else:
-                    okg = any(x is tm[0] for x in walk(a0))
+    if gen is not None:
+        c = fnew.origin(gen)
+        if c is not None and c.get("k") == "call" and cname(c) == g["core_new"]:
+            a0 = fnew.origin(c["args"][0])
+            okg = a0 is not None and any(x is tm[0] for x in walk(a0))
     ctx.check("C13.O", "%s:generator_moved_in" % short, okg, "the generator reading the extended slice lives in the same struct",
               "field `%s` is not the generator built from the extended slice" % g["gen"], line_of(lit))
     # _data written nowhere else; struct not Clone; no &mut access
